@@ -115,11 +115,6 @@ def run_program(files: dict, flags, approved, *, pyproject: str | None = PYPROJE
                         if used:
                             rec = ChangeRecorder()
                             apply_all(used, rec)
-                            out["replacements"] = {
-                                pathlib.Path(sf.filename).name: [
-                                    [r.range.start.lineno, r.range.start.col_offset, r.range.end.lineno,
-                                     r.range.end.col_offset, r.text, r.change_id] for r in sf.replacements]
-                                for sf in rec.files()}
                             if ensure_imports:
                                 from inline_snapshot._code_repr import used_hasrepr
                                 from inline_snapshot._find_external import ensure_import
@@ -132,6 +127,11 @@ def run_program(files: dict, flags, approved, *, pyproject: str | None = PYPROJE
                                         ensure_import(tf.filename, {"inline_snapshot": req}, rec)
                                     for nm in usedx:
                                         state.storage.persist(nm)
+                            out["replacements"] = {
+                                pathlib.Path(sf.filename).name: [
+                                    [r.range.start.lineno, r.range.start.col_offset, r.range.end.lineno,
+                                     r.range.end.col_offset, r.text, r.change_id] for r in sf.replacements]
+                                for sf in rec.files()}
                             rec.fix_all()
                     except BaseException as e:  # noqa: BLE001
                         out["apply_error"] = exc_name(e) + ": " + str(e)[:200]
